@@ -432,11 +432,17 @@ pub fn run(tier: &str) -> Result<Report, String> {
         let n_vol: usize = if tier == "quick" { 1_000_000 } else { 5_000_000 };
         let mut n_bad = 0;
         for i in 0..n_vol {
-            let (text, want_c, want_r): (String, String, Vec<(&str, &str)>) = match i % 3 {
-                0 => (format!("(AX g{i:07})"), format!("(AX g{i:07})"), vec![]),
-                1 => (format!("(EF ({{x}} & g{i:07}))"), format!("(EF ({{var0}} & g{i:07}))"), vec![("x", "var0")]),
-                _ => (format!("(!{{xx}}: ({{x}} EU ({{xx}} | g{i:07})))"), format!("(!{{var0}}: ({{var1}} EU ({{var0}} | g{i:07})))"), vec![("x", "var1")]),
+            // names g<i> without padding: 900 000 names of six digits share one length
+            let shapes: Vec<(String, String, Vec<(&str, &str)>)> = {
+                let mut v = vec![(format!("(AX g{i})"), format!("(AX g{i})"), vec![])];
+                match i % 3 {
+                    1 => v.push((format!("(EF ({{x}} & g{i}))"), format!("(EF ({{var0}} & g{i}))"), vec![("x", "var0")])),
+                    2 => v.push((format!("(!{{xx}}: ({{x}} EU ({{xx}} | g{i})))"), format!("(!{{var0}}: ({{var1}} EU ({{var0}} | g{i})))"), vec![("x", "var1")])),
+                    _ => {}
+                }
+                v
             };
+            for (text, want_c, want_r) in shapes {
             let got = guarded(|| get_canonical_and_renaming(text.clone()));
             let what = match got {
                 Ok((c, r)) => {
@@ -456,8 +462,9 @@ pub fn run(tier: &str) -> Result<Report, String> {
                     rep.violations.push(Violation { case: json!({"kind": "none"}), what: format!("sub-formula {text} canonised as number {i} of a long sequence on one thread: {w}"), size: 40 });
                 }
             }
+            }
         }
-        rep.evaluations += n_vol as u64;
+        rep.evaluations += n_vol as u64 * 5 / 3;
         rep.set("same_length_subformulae_canonised_in_sequence_on_one_thread", json!(n_vol));
     }
     // 2. duplicate marking: every single preprocessed formula, all pairs of a subset, all lists <= 3 of the collision alphabet
